@@ -152,13 +152,18 @@ func vrBuild(t int) vrCase {
 		}
 		return vrCase{code: vrMain(body), faulty: fault, what: k + fmt.Sprintf(" where%d", where), culprit: cul}
 	case 11: // duplicate definitions
-		kind := nd("kind", 0, 4)
+		kind := nd("kind", 0, 9)
 		progs := []string{
 			"fn a() {}\nfn b() {}\n" + vrMain("  a();\n  b();\n"),
 			"fn a() {}\nfn a() {}\n" + vrMain("  a();\n"),
 			"let g = 1;\nlet g = 2;\n" + vrMain("  println(g);\n"),
 			"type T = int;\ntype T = str;\n" + vrMain("  let x: T = 1;\n  println(x);\n"),
 			"fn a(p: int, p: int) {}\n" + vrMain("  a(1, 2);\n"),
+			"let a = 1;\nfn a() -> int { 2 }\n" + vrMain("  println(a);\n"),
+			"fn a() -> int { 2 }\nlet a = 1;\n" + vrMain("  println(a);\n"),
+			"$S = { a: int };\n$S = { b: int };\n" + vrMain("  println(1);\n"),
+			"fn a() {}\nevent fn a(x: int) {}\n" + vrMain("  a();\n"),
+			"pub fn a() {}\nfn a() {}\n" + vrMain("  a();\n"),
 		}
 		return vrCase{progs[kind], kind != 0, fmt.Sprintf("duplicate kind%d", kind), ""}
 	case 12: // implicit any
@@ -183,11 +188,24 @@ func vrBuild(t int) vrCase {
 		return vrCase{"fn f() -> int {\n  let g = fn() -> str { \"s\" };\n  println(g());\n  return " + vrLits[t2] + ";\n}\n" + vrMain("  println(f());\n"), t2 != 0, "return-after-closure " + vrTypes[t2], ""}
 	case 15: // non-constant global
 		kind := nd("kind", 0, 1)
-		progs := []string{
-			"let g = 1 + 2;\n" + vrMain("  println(g);\n"),
-			"fn f() -> int { return 1; }\nlet g = f();\n" + vrMain("  println(g);\n"),
+		if kind == 0 {
+			return vrCase{"let g = 1 + 2;\n" + vrMain("  println(g);\n"), false, "global-init kind0", ""}
 		}
-		return vrCase{progs[kind], kind == 1, fmt.Sprintf("global-init kind%d", kind), ""}
+		// a call (which the program could observe: it prints) anywhere inside the initializer makes it non-constant
+		forms := []string{"%E", "%E..3", "0..%E", "[1, 2][%E]", "[%E]", "new { k: %E }", "-%E", "%E + 1", "1 + %E", "(%E)", "%E as float",
+			"?%E", "{ %E }", "if true { %E } else { 1 }", "match 1 { 1 => %E, _ => 2 }", "!(%E == 1)", "[%E][0]", "new { k: [%E] }.k",
+			"[1, 2][0..%E]", "(0..%E).start", "[%E].len()", "%E == 1 || true", "try { %E } catch e { 1 }"}
+		form := nd("form", 0, len(forms)-1)
+		init := ""
+		for i := 0; i < len(forms[form]); i++ {
+			if forms[form][i] == '%' && i+1 < len(forms[form]) {
+				init += "f()"
+				i++
+				continue
+			}
+			init += string(forms[form][i])
+		}
+		return vrCase{"fn f() -> int { println(\"side effect\"); return 1; }\nlet g = " + init + ";\n" + vrMain("  println(g);\n"), true, "global-init non-constant `" + forms[form] + "`", ""}
 	case 16: // list element types / index type / member call argument
 		kind := nd("kind", 0, 4)
 		progs := []string{
